@@ -378,3 +378,73 @@ func (g *G) BoolExpr(depth int) *xast.Expr {
 	}
 	return bin(eq[g.R.Intn(2)], g.flatPath(2), g.flatPath(2))
 }
+
+// ---------------------------------------------------------------------------
+// namespaces (C14) and unions (C11)
+
+var nsLabels = [][3]string{{"", "", "a"}, {"p", "u1", "a"}, {"q", "u1", "a"}, {"p", "u2", "b"}, {"q", "u2", "a"}, {"r", "u3", "b"}, {"", "", "b"}}
+
+// NsDoc decorates a random document with prefixes / namespace URIs.
+func (g *G) NsDoc(max int) *vdoc.Doc {
+	d := g.Doc(max)
+	nodes := make([]vdoc.Node, 0, d.Len())
+	for i := 1; i <= d.Len(); i++ {
+		n := d.Nodes[i]
+		if n.K == "elem" || n.K == "attr" {
+			l := nsLabels[g.R.Intn(len(nsLabels))]
+			n.Px, n.Ns, n.N = l[0], l[1], l[2]
+		}
+		nodes = append(nodes, vdoc.Node{K: n.K, N: n.N, P: n.P, V: n.V, Px: n.Px, Ns: n.Ns})
+	}
+	// attribute names must stay unique per element: drop clashes
+	seen := map[[3]interface{}]bool{}
+	out := nodes[:0]
+	remap := map[int]int{}
+	for i, n := range nodes {
+		if n.K == "attr" {
+			k := [3]interface{}{n.P, n.Px, n.N}
+			if seen[k] {
+				continue
+			}
+			seen[k] = true
+		}
+		remap[i+1] = len(out) + 1
+		out = append(out, n)
+	}
+	for i := range out {
+		if out[i].P != 0 {
+			out[i].P = remap[out[i].P]
+		}
+	}
+	nd, err := vdoc.New(out)
+	if err != nil {
+		panic(err)
+	}
+	return nd
+}
+
+// NsMaps are the namespace maps of the configurations (nil = Compile without a map).
+var NsMaps = []map[string]string{nil, {"p": "u1", "q": "u2"}, {"p": "u2"}, {"r": "u1", "p": "u3"}, {}, {"p": "u1", "q": "u1", "r": "u3"}}
+
+// NsPath draws a path whose name tests carry prefixes.
+func (g *G) NsPath() *xast.Expr {
+	e := g.Path(3)
+	for i := range e.Steps {
+		if e.Steps[i].Nt.K == "name" {
+			l := nsLabels[g.R.Intn(len(nsLabels))]
+			e.Steps[i].Nt.Px, e.Steps[i].Nt.N = l[0], l[2]
+			if g.R.Intn(6) == 0 {
+				e.Steps[i].Nt.Px = "zz" // never bound
+			}
+		}
+	}
+	return e
+}
+
+// UnionExpr draws A | B (possibly nested) over predicate-free paths.
+func (g *G) UnionExpr(depth int) *xast.Expr {
+	if depth == 0 || g.R.Intn(3) == 0 {
+		return g.Path(3)
+	}
+	return &xast.Expr{T: "union", L: g.UnionExpr(depth - 1), R: g.UnionExpr(depth - 1)}
+}
